@@ -333,6 +333,57 @@ def run(ctx):
     crosscheck(ctx, "C13.R4", LD + ".SchemaLoader.loadResource", RI,
                "schemaloader_loadResource", LD + ".SchemaLoader",
                "cache[url] = parseResource(...), stored only after success")
+    # ... and structurally, for every cache table (also the registry's table
+    # of names found by search, whose function has no reference): a store
+    # into the table is the last thing its function does before it returns
+    # -- nothing that can still fail, and no further round of a loop, comes
+    # after it (an entry is recorded only for a completed computation)
+    from zcstatic import cfg as C
+    n_stores = 0
+    for cq, fld in (("ZConfig.datatypes.Registry", "_other"),
+                    ("ZConfig.datatypes.MemoizedConversion", "_memo"),
+                    (LD + ".SchemaLoader", "_cache")):
+        c = m.cls(cq)
+        for mname, fn in sorted(c.methods.items()):
+            if mname == "__init__" or not fn.params:
+                continue
+            selfn = fn.params[0]
+            g = None
+            for n in ast.walk(fn.node):
+                if not (isinstance(n, ast.Assign) and any(
+                        isinstance(t, ast.Subscript) and isinstance(
+                            t.value, ast.Attribute) and isinstance(
+                                t.value.value, ast.Name)
+                        and t.value.value.id == selfn
+                        and t.value.attr == fld for t in n.targets)):
+                    continue
+                if mname == "register":
+                    continue     # the public registration API itself
+                n_stores += 1
+                g = g or C.build(fn)
+                after = set()
+                for cn in g.nodes_for(n):
+                    after |= g.reach_from([x for _, x in cn.succ])
+                later_calls = []
+                for x in g.live_nodes():
+                    if x.id in after and x.ast is not None and x.kind in (
+                            "stmt", "test", "for_iter", "with_enter"):
+                        root = x.ast.iter if x.kind == "for_iter" else x.ast
+                        for y in ast.walk(root):
+                            if isinstance(y, ast.Call):
+                                later_calls.append(src(y)[:50])
+                run.check(not later_calls,
+                          "C13.R4", fn.qualname, src(n)[:70],
+                          "nothing that can fail follows the store: the "
+                          "entry stands for a completed computation",
+                          "the cache entry is stored before the computation "
+                          "is complete (still to run after the store: %s): a "
+                          "failure leaves an entry behind that later loads "
+                          "find" % sorted(set(later_calls))[:4],
+                          loc=m.loc(fn, n))
+    if n_stores < 3:
+        raise AnalysisError("C13.R4: only %d store(s) into the cache tables "
+                            "found (anchor vanished?)" % n_stores)
     callers = {c[0].qualname for c in ctx.flow.callers(
         m.fn("ZConfig.datatypes.Registry.register"))}
     run.check(not callers, "C13.R4", "ZConfig.datatypes.Registry.register",
